@@ -1,5 +1,5 @@
 """C14 — optional build features do not change results (structural clauses over 11 build configurations)."""
-from ..rules import features, engine, data, text, parser
+from ..rules import features, engine, data, text, parser, validate
 
 EXPL = ("Decides: SA-CFGDIFF: all MIR bodies reduced to their effects are compared across build configurations - debug assertions "
         "on/off change no body at all (dbg, strict_dbg, unsafe_dbg against their release twins), and each feature changes only the "
@@ -39,6 +39,11 @@ def run(ctx):
         base = progs["dbg"] if c.endswith("_dbg") else progs["rel"]
         ctx.cfg = c
         ctx.guard("C14", "enginemap-" + c, lambda: engine.engine_correspondence(ctx, base, progs[c]))
+    if "dbg" in cfgs:
+        # checked vs unchecked forms: the asserts of a checked form are exactly the beliefs of the `_internal` body its unchecked twin
+        # calls directly (a checked form that refuses an in-contract value, or admits an out-of-contract one, makes the twins disagree)
+        ctx.cfg = "dbg"
+        ctx.guard("C14", "contracts", lambda: validate.constructors(ctx, progs["dbg"]))
     for c in [x for x in cfgs if x in ("unchecked", "unsafe")]:
         prog = progs[c]
         ctx.cfg = c
